@@ -140,6 +140,64 @@ static void enc(std::ostream &o, const json &j) {
   }
 }
 
+// every member of every value, whatever its type says: T<type>[s<hex>][a[..]][o{..}]
+static void encx(std::ostream &o, const json &j) {
+  switch (j.type) {
+  case json::none_: o << "N"; break;
+  case json::null_: o << "Z"; break;
+  case json::number_: {
+    const occa::primitive &p = j.value_.number;
+    if (p.type == pt::bool_) o << "B" << (p.value.bool_ ? 1 : 0);
+    else if (p.type == pt::int32_) o << "I" << (long long) p.value.int32_;
+    else o << "#";
+    break;
+  }
+  case json::string_: o << "S"; break;
+  case json::array_: o << "A"; break;
+  case json::object_: o << "O"; break;
+  default: o << "?";
+  }
+  if (!j.value_.string.empty()) o << "s" << hex(j.value_.string);
+  if (!j.value_.array.empty()) {
+    o << "a[";
+    bool first = true;
+    for (const json &x : j.value_.array) { if (!first) o << ","; first = false; encx(o, x); }
+    o << "]";
+  }
+  if (!j.value_.object.empty()) {
+    o << "o{";
+    bool first = true;
+    for (auto &kv : j.value_.object) { if (!first) o << ","; first = false; o << hex(kv.first) << "="; encx(o, kv.second); }
+    o << "}";
+  }
+}
+
+// j = <typed>: the inline assignment operator of json.hpp for the C++ type that the value stands for
+static void assignTyped(json &dst, const json &v) {
+  switch (v.type) {
+  case json::number_:
+    if (v.value_.number.type == pt::bool_) dst = (bool) v.value_.number.value.bool_;
+    else dst = (int32_t) v.value_.number.value.int32_;
+    break;
+  case json::string_: dst = v.value_.string; break;
+  case json::array_: dst = v.value_.array; break;
+  case json::object_: dst = v.value_.object; break;
+  default: throw Bad();
+  }
+}
+static void setTyped(json &j, const std::string &key, const json &v) {
+  switch (v.type) {
+  case json::number_:
+    if (v.value_.number.type == pt::bool_) j.set(key, (bool) v.value_.number.value.bool_);
+    else j.set(key, (int32_t) v.value_.number.value.int32_);
+    break;
+  case json::string_: j.set(key, v.value_.string); break;
+  case json::array_: j.set(key, v.value_.array); break;
+  case json::object_: j.set(key, v.value_.object); break;
+  default: throw Bad();
+  }
+}
+
 static void split2(const std::string &body, std::string &a, std::string &b) {
   size_t i = body.find(':');
   if (i == std::string::npos) throw Bad();
@@ -166,6 +224,10 @@ static std::string run(const std::vector<std::string> &toks) {
     case 'G': case 'H': case 'z': case 'R': case 'T': op.path = pathOf(body); break;
     case 'M': op.value = parseValue(body); break;
     case 'D': case 'S': case 'K': case 'm': split2(body, a, b); op.path = pathOf(a); op.value = parseValue(b); break;
+    case 't': case 'k':
+      split2(body, a, b); op.path = pathOf(a); op.value = parseValue(b);
+      if (op.value.type == json::none_ || op.value.type == json::null_) throw Bad();
+      break;
     default: throw Bad();
     }
     ops.push_back(op);
@@ -187,6 +249,8 @@ static std::string run(const std::vector<std::string> &toks) {
       case 'M': j += op.value; out << "u"; break;
       case 'm': j[op.path] += op.value; out << "u"; break;
       case 'T': j[op.path]; out << "u"; break;
+      case 't': assignTyped(j[op.path], op.value); out << "u"; break;
+      case 'k': setTyped(j, op.path, op.value); out << "u"; break;
       }
     } catch (occa::exception &e) {
       out << "E";
@@ -195,6 +259,8 @@ static std::string run(const std::vector<std::string> &toks) {
   }
   out << "D=";
   enc(out, j);
+  out << ";X=";
+  encx(out, j);
   return "R " + out.str();
 }
 
